@@ -16,6 +16,10 @@ def feed (σ : Nat → Option Outcome) : Gen → Nat → List Entry → Option (
     match σ n with
     | none => (none, l)
     | some o => feed σ (k o) (n + 1) l
+  | .awaitC k, n, l =>
+    match σ n with
+    | none => (none, l)
+    | some o => feed σ (k o) (n + 1) l
   | .yieldv v k, n, l => feed σ (k v) n l
   | .emit e g, n, l => feed σ g n (l ++ [e])
   | .call inner k, n, l =>
@@ -29,10 +33,10 @@ def after (σ : Nat → Option Outcome) (κ : Kont) (r : Sync.R) : Option (Outco
   | (none, w) => (none, w.log)
   | (some (c, acc), w) => feed σ (κ c acc) w.next w.log
 
-theorem loop_sound (σ : Nat → Option Outcome) (body : Stmt)
-    (ih : ∀ acc κ n l, feed σ (denote body acc κ) n l = after σ κ (Sync.eval σ body acc ⟨n, l⟩))
+theorem loop_sound (σ : Nat → Option Outcome) (coro : Bool) (body : Stmt)
+    (ih : ∀ acc κ n l, feed σ (denote coro body acc κ) n l = after σ κ (Sync.eval σ body acc ⟨n, l⟩))
     (k : Nat) : ∀ acc κ n l,
-    feed σ (loopG (denote body) k acc κ) n l = after σ κ (Sync.loopS (Sync.eval σ body) k acc ⟨n, l⟩) := by
+    feed σ (loopG (denote coro body) k acc κ) n l = after σ κ (Sync.loopS (Sync.eval σ body) k acc ⟨n, l⟩) := by
   induction k with
   | zero => intro acc κ n l; simp [loopG, Sync.loopS, after]
   | succ k ihk =>
@@ -43,27 +47,28 @@ theorem loop_sound (σ : Nat → Option Outcome) (body : Stmt)
     · cases c <;> simp [after, ihk]
 
 /-- **Part A** (all statements, all continuations). -/
-theorem denote_sound (σ : Nat → Option Outcome) (s : Stmt) : ∀ acc κ n l,
-    feed σ (denote s acc κ) n l = after σ κ (Sync.eval σ s acc ⟨n, l⟩) := by
+theorem denote_sound (σ : Nat → Option Outcome) (s : Stmt) : ∀ coro acc κ n l,
+    feed σ (denote coro s acc κ) n l = after σ κ (Sync.eval σ s acc ⟨n, l⟩) := by
   induction s with
-  | skip => intro acc κ n l; simp [denote, Sync.eval, after]
+  | skip => intro coro acc κ n l; simp [denote, Sync.eval, after]
   | await =>
-    intro acc κ n l
-    simp only [denote, Sync.eval, feed]
-    rcases h : σ n with _ | o
-    · simp [after]
-    · cases o <;> simp [after, deliver]
-  | yieldv e => intro acc κ n l; simp [denote, Sync.eval, after, feed]
-  | set e => intro acc κ n l; simp [denote, Sync.eval, after]
-  | mark m => intro acc κ n l; simp [denote, Sync.eval, after, feed]
+    intro coro acc κ n l
+    cases coro <;>
+    · simp only [denote, Sync.eval, feed, Bool.false_eq_true, if_false, if_true]
+      rcases h : σ n with _ | o
+      · simp [after]
+      · cases o <;> simp [after, deliver]
+  | yieldv e => intro coro acc κ n l; simp [denote, Sync.eval, after, feed]
+  | set e => intro coro acc κ n l; simp [denote, Sync.eval, after]
+  | mark m => intro coro acc κ n l; simp [denote, Sync.eval, after, feed]
   | seq a b iha ihb =>
-    intro acc κ n l
+    intro coro acc κ n l
     rw [denote, iha, Sync.eval]
     rcases h : Sync.eval σ a acc ⟨n, l⟩ with ⟨_ | ⟨c, acc'⟩, w⟩
     · simp [after]
     · cases c <;> simp [after, ihb]
   | tryExcept body cf hd ihb ihh =>
-    intro acc κ n l
+    intro coro acc κ n l
     rw [denote, ihb, Sync.eval]
     rcases h : Sync.eval σ body acc ⟨n, l⟩ with ⟨_ | ⟨c, acc'⟩, w⟩
     · simp [after]
@@ -75,7 +80,7 @@ theorem denote_sound (σ : Nat → Option Outcome) (s : Stmt) : ∀ acc κ n l,
         · simp [after, hc, ihh]
         · simp [after, hc]
   | tryFinally body fin ihb ihf =>
-    intro acc κ n l
+    intro coro acc κ n l
     rw [denote, ihb, Sync.eval]
     rcases h : Sync.eval σ body acc ⟨n, l⟩ with ⟨_ | ⟨c, acc'⟩, w⟩
     · simp [after]
@@ -84,16 +89,17 @@ theorem denote_sound (σ : Nat → Option Outcome) (s : Stmt) : ∀ acc κ n l,
       rcases h2 : Sync.eval σ fin acc' w with ⟨_ | ⟨c2, acc''⟩, w2⟩
       · simp [after]
       · cases c2 <;> simp [after]
-  | loop k body ih => intro acc κ n l; rw [denote, Sync.eval]; exact loop_sound σ body ih k acc κ n l
-  | ret e => intro acc κ n l; simp [denote, Sync.eval, after]
-  | raise m => intro acc κ n l; simp [denote, Sync.eval, after]
+  | loop k body ih => intro coro acc κ n l; rw [denote, Sync.eval]; exact loop_sound σ coro body (ih coro) k acc κ n l
+  | ret e => intro coro acc κ n l; simp [denote, Sync.eval, after]
+  | raise m => intro coro acc κ n l; simp [denote, Sync.eval, after]
+  | raiseB m => intro coro acc κ n l; simp [denote, Sync.eval, after]
   | ifLt m a b iha ihb =>
-    intro acc κ n l
+    intro coro acc κ n l
     by_cases h : acc < m
     · simp [denote, Sync.eval, h, iha]
     · simp [denote, Sync.eval, h, ihb]
-  | call w p ih =>
-    intro acc κ n l
+  | call w ic p ih =>
+    intro coro acc κ n l
     cases w with
     | true =>
       rw [denote, feed, ih, Sync.eval]
@@ -109,8 +115,8 @@ theorem denote_sound (σ : Nat → Option Outcome) (s : Stmt) : ∀ acc κ n l,
         cases hf : finish c acc' <;> simp [deliver]
 
 /-- the generator object of a whole function, fed immediately = the synchronous run -/
-theorem gen_sound (σ : Nat → Option Outcome) (p : Stmt) :
-    ((feed σ (gen p) 0 []).1.map (·.1), (feed σ (gen p) 0 []).2) = Sync.run σ p := by
+theorem gen_sound (σ : Nat → Option Outcome) (coro : Bool) (p : Stmt) :
+    ((feed σ (gen coro p) 0 []).1.map (·.1), (feed σ (gen coro p) 0 []).2) = Sync.run σ p := by
   unfold gen Sync.run
   rw [denote_sound]
   rcases h : Sync.eval σ p 0 ⟨0, []⟩ with ⟨_ | ⟨c, acc'⟩, w⟩
